@@ -1,6 +1,7 @@
 """Per-harness options (solver schedule, axiom groups, stretch obligations, fixed validation vectors)."""
 OPTS = {
     'C02': {},
+    'C17': {'*': {'programs': {'quick': 20, 'thorough': 200}}},
     'C13': {'*': {'mixed_int': True, 'feas_solver': 'cvc5', 'abstract_first': False},
             'c13_fp_deg_f64': {'mode': 'FP', 'abstract_first': False}, 'c13_fp_rad_f64': {'mode': 'FP', 'abstract_first': False},
             'c13_fp_deg_f32': {'mode': 'FP', 'abstract_first': False}, 'c13_fp_rad_f32': {'mode': 'FP', 'abstract_first': False},
